@@ -44,6 +44,8 @@ type Conn struct {
 	rdArmed   bool
 	wrArmed   bool
 	Cap       int  // capacity of the *peer's* inbox as seen by Write (0 = unbounded, <0 = full from the start: every Write blocks)
+	Partial   bool // with Cap > 0: a Write delivers only as many bytes as there is room for and blocks for the rest (it returns the
+	// count delivered so far when its deadline expires or the peer goes away), as a kernel socket buffer does
 	Coalesce  bool // bytes arriving at this end while earlier bytes are still unread join the last unread segment (the network merged them)
 	WriteErr  error
 	// recording
@@ -123,6 +125,9 @@ func (c *Conn) writable() bool {
 
 func (c *Conn) Write(b []byte) (int, error) {
 	c.WriteCalls++
+	if c.Partial {
+		return c.writePartial(b)
+	}
 	vsched.Yield("write", c, c.writable)
 	vsched.Acquire(dlKey{c, false})
 	p := c.peer
@@ -151,6 +156,37 @@ func (c *Conn) Write(b []byte) (int, error) {
 	p.Log = append(p.Log, seg)
 	vsched.Release(p)
 	return len(b), nil
+}
+
+func (c *Conn) writePartial(b []byte) (int, error) {
+	n := 0
+	for {
+		vsched.Yield("write", c, c.writable)
+		vsched.Acquire(dlKey{c, false})
+		p := c.peer
+		switch {
+		case c.closed:
+			return n, opErr("write", net.ErrClosed)
+		case c.wrExpired:
+			return n, opErr("write", timeoutError{})
+		case p.closed || c.reset:
+			return n, opErr("write", syscall.EPIPE)
+		}
+		room := len(b) - n
+		if c.Cap > 0 && c.Cap-p.inBytes < room {
+			room = c.Cap - p.inBytes
+		}
+		vsched.EnvProgress()
+		seg := append([]byte(nil), b[n:n+room]...)
+		p.inbox = append(p.inbox, seg)
+		p.inBytes += len(seg)
+		p.Log = append(p.Log, seg)
+		vsched.Release(p)
+		n += room
+		if n == len(b) {
+			return n, nil
+		}
+	}
 }
 
 // Close closes this end; the peer sees EOF after draining what was written.
